@@ -157,6 +157,18 @@ CHECKS = {
         note='The block harnesses are finite-choice (solver-driven enumeration, leverage about 1); the name mapping is '
              'solver-quantified over character variables. Trusted: z3, the reference model in harness/c10.py.',
         design='3 C10'),
+    'C15': dict(
+        text='Histories on the real sheet: a start sheet from a menu, then up to k operations chosen with their arguments by '
+             'solver variables (mapping assignment and deletion, adding / inserting an @namespace rule, deleting a rule, '
+             'adding a style rule with a namespaced selector, replacing a selector, changing a rule prefix, attaching a '
+             'detached rule that carries its own namespace dictionary). After every operation: the mapping equals the '
+             'effective @namespace rules recomputed by the harness, no URI is declared twice, every URI stored in a '
+             'selector is declared, every selector still holds the (URI, local name) pairs it was created with, the '
+             'serialisation parses and resolves to the same pairs, a rejected operation changed nothing, deleting a used '
+             'namespace / using an undeclared prefix is rejected.',
+        note='Finite-choice histories (k <= 2 quick, <= 3 thorough): solver-driven exhaustive enumeration within the bound '
+             '(leverage about 1). Trusted: z3, effective() and pairs() in harness/c15.py.',
+        design='3 C15'),
     'C16': dict(
         text='Selectors are assembled from a derivation of the CSS3 selector grammar chosen by solver variables (one and '
              'two compounds; every part kind alone and all pairs - triples in the thorough tier; four spellings of every '
